@@ -966,30 +966,41 @@ fn main() {
                             tp.add_word(&text, &mut list);
                         }
                         let (mut seq, mut spelled) = (vec![], String::new());
+                        let mut kinds: Vec<Option<String>> = vec![]; // per glyph: Some(originals) for a ligature node
                         for h in &list {
                             match h {
                                 boxworks::ds::Horizontal::Char(c) => {
                                     seq.push(Out::G(c.char as u8));
                                     spelled.push(c.char);
+                                    kinds.push(None);
                                 }
                                 boxworks::ds::Horizontal::Ligature(l) => {
                                     seq.push(Out::G(l.char as u8));
                                     spelled.push_str(&l.original_chars);
+                                    kinds.push(Some(l.original_chars.to_string()));
                                 }
                                 boxworks::ds::Horizontal::Kern(k) => seq.push(Out::K(k.width.0 as i64)),
                                 boxworks::ds::Horizontal::Discretionary(_) => {}
                                 other => seq.push(Out::K(i64::MIN + format!("{other:?}").len() as i64)), // anything else is unexpected
                             }
                         }
-                        (seq, spelled)
+                        (seq, spelled, kinds)
                     });
                     let case = || case_json(&rules, p.rbc, lay[d[2] as usize], json!({"kind": "add-word", "word": text, "via_add_text": via_text}));
+                    // a glyph TeX holds in a ligature node must be a Ligature node of the list
+                    let model_lig: Vec<bool> = m.nodes.iter().filter(|n| !matches!(n, Node::Kern(_))).map(|n| matches!(n, Node::Lig { .. })).collect();
+                    let self_lig = m.nodes.iter().any(|n| matches!(n, Node::Lig { c, orig, left: false, right: false } if orig.len() == 1 && orig[0] == *c));
                     match got {
                         Err(pn) => acc.fail(i, case(), render_nodes(&m.nodes), pn.describe(), "add_word / add_text panicked"),
-                        Ok((seq, spelled)) => {
+                        Ok((seq, spelled, kinds)) => {
                             if seq != want || spelled != text {
                                 acc.fail(i, case(), format!("{} = {:?}", render_nodes(&m.nodes), want), format!("{seq:?} spelling {spelled:?}"), "the horizontal list of add_word differs from direct interpretation of the lig/kern program");
+                            } else if model_lig.iter().zip(kinds.iter()).any(|(ml, k)| *ml && k.is_none()) {
+                                acc.fail(i, case(), render_nodes(&m.nodes), format!("node kinds (None = Char node, Some(originals) = Ligature node): {kinds:?}"), "a glyph produced by a ligature command is a plain Char node in the list of add_word");
                             } else {
+                                if self_lig {
+                                    acc.count("ligature_glyph_equals_its_single_original_char");
+                                }
                                 acc.count("add_word_route_compared");
                                 if wd.len() == 1 && boundary_rule {
                                     acc.count("one_char_word_with_boundary_rule");
@@ -1070,6 +1081,7 @@ fn main() {
     ctx.require("ligature_of_a_ligature", "a ligature command fired on a character that was itself inserted by a ligature command");
     ctx.require("left_boundary_rule_fired", "a left boundary rule fired");
     ctx.require("right_boundary_rule_fired", "a rule fired against the right boundary character");
+    ctx.require("ligature_glyph_equals_its_single_original_char", "add_word route: a ligature node whose glyph is its single original character, no boundary involved (e.g. LIG/> re-inserting the character it deletes)");
     ctx.require("add_word_route_compared", "words whose horizontal list from add_word / add_text was compared");
     ctx.require("one_char_word_with_boundary_rule", "a one-character word for which a left- or right-boundary rule fires, through add_word");
     ctx.require("negative_kern_at_design_size_ge_128pt", "a negative kern emitted at a design size of 128pt or more");
